@@ -77,8 +77,8 @@ class Report:
     def function(self, qualname, obj=None):
         self.functions[qualname] = src_hash(obj) if obj is not None else "n/a"
 
-    def obligation(self, name, ok, backend="z3", secs=0.0, engine="", sample=None):
-        self.obl.append(dict(name=name, ok=bool(ok), backend=backend, secs=round(secs, 4), engine=engine))
+    def obligation(self, name, ok, backend="z3", secs=0.0, engine="", sample=None, trivial=False):
+        self.obl.append(dict(name=name, ok=bool(ok), backend=backend, secs=round(secs, 4), engine=engine, trivial=bool(trivial)))
         if sample is not None and len(self.samples) < 12:
             self.samples.append({"obligation": name, "backend": backend, "detail": sample})
 
@@ -215,16 +215,19 @@ class Report:
             notes=self.notes,
             samples=(self.samples + self.bounded_samples) or [{"note": "no sample recorded"}],
             explanation=(
-                f"{d}/{n} contract obligations generated from {REPO}'s current source were discharged by an SMT back end "
-                f"(all inputs within the stated structure); {self.bounded_cases} bounded exact cases "
-                f"({len(self.bounded_distinct)} distinct) were run on the real code and are NOT counted as proved; "
+                f"{d}/{n} contract obligations generated from {REPO}'s current source were discharged "
+                f"(by back end: {by_backend}; 'symexec(ground)' = clause decided by executing the real code on opaque values over an exhaustively "
+                f"enumerated structure, no solver query; 'ast-abstract-interpretation' = frame/traceability discipline on the AST); "
+                f"{sum(1 for o in self.obl if o.get('trivial'))} of them have a goal that simplifies to True under its path condition (counted, but excluded from distinct_nontrivial); "
+                f"{self.bounded_cases} bounded cases ({len(self.bounded_distinct)} distinct) were run on the real code and are NOT counted as proved; "
                 f"uncovered items are listed under 'uncovered'."
             ),
+            trivial_goals=sum(1 for o in self.obl if o.get("trivial")),
             # exploration-style counts (measured): evaluations = obligations + bounded cases
             evaluations=n + self.bounded_cases,
-            distinct_nontrivial=len({o["name"] for o in self.obl}) + len(self.bounded_distinct),
-            rule="distinct = distinct obligation names (function:structure-case:clause) plus distinct bounded case keys; "
-            "trivial obligations (empty path condition and literal True goal) are not generated",
+            distinct_nontrivial=len({o["name"] for o in self.obl if not o.get("trivial")}) + len(self.bounded_distinct),
+            rule="distinct = distinct obligation names (function:structure-case:clause) plus distinct bounded case keys; an SMT obligation is "
+            "trivial when its goal simplifies to the literal True before the solver is called (measured, listed as trivial_goals)",
         )
         cov.update(self.extra)
         ev = dict(
